@@ -559,16 +559,16 @@ Section Text.
     destruct n as [|n0 n], v as [|v0 v]; rewrite ?strip_nil; cbn [chars_ev app]; lazy -[strip app concat]; cbn [app concat]; rewrite ?app_nil_r; reflexivity.
   Qed.
 
-  (* one <Label>: the text stored is strip text; an empty text leaves the label without text *)
+  (* one <Label>: the text stored is strip text (the empty text for an element without character data) *)
   Lemma label_roundtrip s l k c t :
     s_chars s = None -> s_write_to s = None -> s_lata s = Some l ->
     run s (label_events k c t) =
-    Ok (set_write_to (set_label (set_lata s (Some (l ++ [mkLabel k c (match t with [] => None | _ => Some (strip t) end)])))
-                                None) None).
+    Ok (set_write_to (set_label (set_lata s (Some (l ++ [mkLabel k c (Some (strip t))]))) None) None).
   Proof.
     destruct s as [im ve me la da de nv mg md lt lb co wt ch]. cbn [s_chars s_lata s_write_to].
     intros -> -> ->. unfold label_events.
-    destruct t as [|t0 t]; cbn [chars_ev app]; lazy -[strip app concat]; cbn [app concat]; rewrite ?app_nil_r; reflexivity.
+    destruct t as [|t0 t]; rewrite ?strip_nil; cbn [chars_ev app]; lazy -[strip app concat]; cbn [app concat];
+      rewrite ?app_nil_r; reflexivity.
   Qed.
 End Text.
 
